@@ -44,9 +44,10 @@ NEGATIVE = {
     "wait_last_only": r"Invariant InvNoFgLeft is violated",
     "leak_writer": "Deadlock reached",
     "leak_reader": "Deadlock reached",
+    "unblock_no_sigchld": "Deadlock reached",
 }
 
-ACTIONS = ["ASimple", "AProbe", "ARead", "AWrite", "ABigWrite", "AForkSub", "AForkCs", "AForkBg", "AForkStage", "AReadEof",
+ACTIONS = ["ASimple", "AProbe", "ARead", "AWrite", "ABigWrite", "AKill", "AUnblock", "AForkSub", "AForkCs", "AForkBg", "AForkStage", "AReadEof",
            "AEnable", "APollFg", "AReapFg", "APollAny", "AReapAny", "AWake", "AWaitChk", "AExit", "ACollect"]
 
 
@@ -63,8 +64,9 @@ def _expected(entry):
 
 
 def _m(e, o):
-    """Procs!Match: -2 = any status (a race in the script), -1 = some non-zero status."""
-    return e == -2 or (e == -1 and o != 0) or e == o
+    """Procs!Match: -2 = any status (a race in the script), -1 = some non-zero status,
+    -3 = terminated by a signal (> 128)."""
+    return e == -2 or e == o or (e == -1 and o != 0) or (e == -3 and o > 128)
 
 
 def _digest_equal(exp, dig):
